@@ -350,6 +350,11 @@ func (w *Writer) Close() (err error) {
 		return errors.New("Catalog.Metadata changed after NewWriter")
 	}
 
+	// The trailer's ID entry is an array of two strings.
+	if n := len(w.meta.ID); n != 0 && n != 2 {
+		return errors.New("ID must have two elements")
+	}
+
 	// Readers refuse an encrypted file which has no ID, and for the
 	// encryption methods of PDF versions before 2.0 the key was derived from
 	// ID[0] during NewWriter.  Replacing or clearing ID after NewWriter
@@ -384,7 +389,7 @@ func (w *Writer) Close() (err error) {
 		return err
 	}
 
-	if w.meta.ID != nil {
+	if len(w.meta.ID) == 2 {
 		trailer["ID"] = Array{String(w.meta.ID[0]), String(w.meta.ID[1])}
 	} else {
 		delete(trailer, "ID")
